@@ -8,46 +8,37 @@ import Driver.Util
 namespace Driver
 open Flussab
 
-inductive ROp where
-  | rq (n : Nat) | ra (k : Nat) | rm | ad (n : Nat) | ab (n : Nat)
-  | sm | sp (p : Nat) | sc (c : Nat) | ck | bad
-
-def parseROp (t : String) : ROp :=
+open Reader in
+def parseROp (t : String) : Option Op :=
   let cs := t.toList
   let k := String.ofList (cs.take 2)
   let v := (String.ofList (cs.drop 2)).toNat?.getD 0
-  if k == "rq" then .rq v else if k == "ra" then .ra v else if k == "rm" then .rm
-  else if k == "ad" then .ad v else if k == "ab" then .ab v else if k == "sm" then .sm
-  else if k == "sp" then .sp v else if k == "sc" then .sc v else if k == "ck" then .ck else .bad
+  if k == "rq" then some (.request v) else if k == "ra" then some (.reqAt v)
+  else if k == "rm" then some .requestMore
+  else if k == "ad" then some (.advance v) else if k == "ab" then some (.advanceWithBuf v)
+  else if k == "sm" then some .setMark
+  else if k == "sp" then some (.setMarkTo v) else if k == "sc" then some (.setChunk v)
+  else if k == "ck" then some .checkIoError else none
 
-def parseROps (s : String) : List ROp :=
+def parseROps (s : String) : List (Option Reader.Op) :=
   if s == "-" then [] else (s.splitOn ",").map parseROp
 
-def ROp.run (r : Reader) : ROp → String × Reader
-  | .rq n => match r.request n with
-      | (none, r') => ("panic", r')
-      | (some _, r') => ("ok", r')
-  | .ra k => match r.requestByteAt k with
-      | (none, r') => ("panic", r')
-      | (some none, r') => ("none", r')
-      | (some (some b), r') => (s!"some:{b.toNat}", r')
-  | .rm => match r.requestMore with
-      | (none, r') => ("panic", r')
-      | (some true, r') => ("t", r')
-      | (some false, r') => ("f", r')
-  | .ad n => match r.advance n with
-      | (none, r') => ("panic", r')
-      | (some (), r') => ("ok", r')
-  | .ab n => match r.advanceWithBuf n with
-      | (none, r') => ("panic", r')
-      | (some bs, r') => (hex bs, r')
-  | .sm => ("ok", r.setMark)
-  | .sp p => ("ok", r.setMarkToPosition p)
-  | .sc c => ("ok", r.setChunkSize c)
-  | .ck => match r.checkIoError with
-      | (true, r') => ("err", r')
-      | (false, r') => ("ok", r')
-  | .bad => ("bad-op", r)
+/-- Canonical text of a result, as printed by the Rust harness for the same op. -/
+def showRes (op : Reader.Op) : Reader.Res → String
+  | .panic => "panic"
+  | .unit => "ok"
+  | .bytes b => match op with
+      | .request _ => "ok"
+      | _ => hex b
+  | .byte none => "none"
+  | .byte (some b) => s!"some:{b.toNat}"
+  | .bool b => match op with
+      | .checkIoError => if b then "err" else "ok"
+      | _ => if b then "t" else "f"
+
+def runROp (r : Reader) : Option Reader.Op → String × Reader
+  | none => ("bad-op", r)
+  | some op => let (res, r') := op.run r; (showRes op res, r')
 
 def obsReader (res : String) (r : Reader) : String :=
   s!"{res}|{hex r.window}|{r.position}|{r.mark}|{b2s r.isComplete}{b2s r.isAtEnd}{b2s r.ioError}|{r.src.calls}|{r.src.afterEnd}"
@@ -66,7 +57,7 @@ def runReaderCase (line : String) : String × String :=
   let ops := parseROps (field fs "o")
   let (outs, _, tags) := ops.foldl (fun (acc : List String × Reader × RTags) op =>
       let (outs, r, t) := acc
-      let (res, r') := op.run r
+      let (res, r') := runROp r op
       let t := { t with
         realign := if r'.posOfBuf != r.posOfBuf then t.realign + 1 else t.realign,
         shrink := if r'.buf.length < r.buf.length then t.shrink + 1 else t.shrink,
